@@ -9,7 +9,7 @@ PVT = 50
 LIFE_CREATE = {"call.create", "call.threads_create", "ret.threads_create", "hook.start", "hook.stop", "ret.create", "tcreate.starting", "tcreate.failed", "proc.enter",
                "proc.running", "proc.onstart", "proc.onstop", "proc.ptid0", "proc.stop", "proc.exit", "create.pvt_running"}
 LIFE_EVENTS = LIFE_CREATE | {"shutdown.cb", "shutdown.set", "sys.join0", "wait.joined", "destroy.free", "ret.destroy",
-                             "ret.shutdown_wait", "sys.close", "Crash", "Hang", "call.attach_first", "ret.attach_first"}
+                             "ret.shutdown_wait", "sys.close", "Crash", "Hang", "call.attach_first", "ret.attach_first", "sys.close.foreign"}
 
 # every named deviation action of the specification belongs to one property; a check reports only its own
 # (the trace of any thread-pool check passes through all layers of the specification)
